@@ -15,6 +15,9 @@ let hx (g : M.nat) (k : M.z) : M.nat =
   | Some b -> nat_of_int b
   | None -> M.O
 
+(* the keys of the case (the model's resize counts the entries it copies among them) *)
+let ku : M.z list ref = ref []
+
 let nth_th (s : M.hcstate) (i : int) : M.hthread = List.nth (M.hths s) i
 
 let smallest_uncopied (s : M.hcstate) (t : M.hthread) : int option =
@@ -26,7 +29,7 @@ let show_opt = function Some v -> string_of_mz v | None -> "-"
 
 (* advance thread i towards the observed label; returns the label the model stops at *)
 let advance (lineno : int) (s : M.hcstate ref) (i : int) (target : string) (flog : (int * (bool * string)) list) (off : int) : string =
-  let step o = s := M.hstep hx !s (nat_of_int i) (nat_of_int o) in
+  let step o = s := M.hstep hx !ku !s (nat_of_int i) (nat_of_int o) in
   let fuel = ref 600 in
   let result = ref "" in
   while !result = "" && !fuel > 0 do
@@ -47,7 +50,7 @@ let advance (lineno : int) (s : M.hcstate ref) (i : int) (target : string) (flog
            | None, false -> ()
            | _ -> mismatch "tbl" lineno "thread %d: the function was given (%b,%s), the model's table holds %s" (i - off) found old (show_opt cur));
           count "functions_checked";
-          step 0; step 0;
+          step 0; step 0; step 0;   (* update, unlock, add to the size counter *)
           if target = "D" then (step 0; result := "D") else (step 1; result := "P35"; count "shrink_attempts")
         | None -> step 1; result := "P35"; count "grow_before_update")
      | M.W5 | M.W6 -> mismatch "tbl" lineno "thread %d rests at a transient position" (i - off); result := "?"
@@ -123,7 +126,7 @@ let run (path : string) : unit =
     off := List.length pre;
     s := M.hinit (nat_of_int n0) (pre @ ths);
     (* the preloaded content: each preload writer runs alone to completion *)
-    List.iteri (fun i _ -> for _ = 1 to 7 do s := M.hstep hx !s (nat_of_int i) M.O done) pre;
+    List.iteri (fun i _ -> for _ = 1 to 8 do s := M.hstep hx !ku !s (nat_of_int i) M.O done) pre;
     labels := Array.make (List.length ths) "";
     started := 0; released := None; flog := []; dead := false; final := []; ylog := []; Hashtbl.reset ychecked;
     count "cases" in
@@ -141,6 +144,7 @@ let run (path : string) : unit =
            | _ -> fin := true);
           incr j
         done;
+        ku := List.map mz_of_string !universe;
         start_case idx (int_of_string n0)
       | _ when !dead -> ()
       | ["H"; _; _] -> ()
@@ -222,6 +226,8 @@ let run (path : string) : unit =
             else mismatch "tbl" lineno "final binding of key %s: implementation %s, model %s" k
                 (match iv with Some b -> b | None -> "-") (show_opt mv)) !universe;
         if string_of_int !cnt <> size then mismatch "tbl" lineno "final size: implementation %s, model %d" size !cnt;
+        let mc = string_of_mz (M.cnt !s (M.hcur !s)) in
+        if mc <> size then mismatch "tbl" lineno "final Size(): implementation %s, the model's counter %s" size mc;
         (* every finished writer of the model has applied its function once *)
         List.iteri (fun i t -> if i >= !off then
                        match M.hpc_ t with
